@@ -577,7 +577,7 @@ fn cmd_run(a: &Args) -> i32 {
                 });
                 (res, format!("diff seed={} idx={} pseed={} len={}", seed, this, pseed, len))
             }
-            None if gen == "deadclone" || gen == "deaddrop" => {
+            None if gen == "deadclone" || gen == "deaddrop" || gen == "deadclonelate" => {
                 let r = run_child(&gen, this, seed);
                 (r.0, r.1)
             }
@@ -738,6 +738,7 @@ fn cmd_child(a: &Args) -> i32 {
     install_panic_hook();
     let mode = match a.get("mode").unwrap_or("deadclone") {
         "deadclone" => gen::ScriptMode::DeadClone,
+        "deadclonelate" => gen::ScriptMode::DeadCloneLate,
         _ => gen::ScriptMode::DeadDrop,
     };
     let idx = a.u64("idx", 0);
